@@ -277,6 +277,11 @@ impl<E: Elem> Iterator for ScriptedIter<E> {
     }
 }
 
+thread_local! {
+    /// elements the harness took out of an abandoned consumer (they remain the caller's)
+    static KEPT: std::cell::RefCell<Vec<(i64, Box<dyn std::any::Any>)>> = std::cell::RefCell::new(Vec::new());
+}
+
 pub struct Interp<E: Elem> {
     pub pool: HashMap<usize, Val<E>>,
     pub bag: Vec<(i64, E)>,
@@ -459,9 +464,14 @@ impl<E: Elem> Interp<E> {
             (okind, arg)
         };
         let spare = vals.iter().any(|v| matches!(v, Val::Vec(x) if x.capacity() > x.len()));
+        let logged_op = match op {
+            "builder_abandon" | "intrusive_abandon" => "generate",
+            "consumer_abandon" => "fold",
+            x => x,
+        };
         ev!(
             "\"ev\":\"call\",\"op\":\"{}\",\"recv\":{},\"byval\":[{}],\"arg\":{},\"elems\":{},\"n\":{},\"okind\":\"{}\",\"truthful\":{},\"spare\":{}",
-            op,
+            logged_op,
             ids(&recv.iter().map(|x| *x as i64).collect::<Vec<_>>()),
             byval.iter().map(|b| b.to_string()).collect::<Vec<_>>().join(","),
             arg.min(i32::MAX as i64),
@@ -513,6 +523,13 @@ impl<E: Elem> Interp<E> {
         for (h, v) in back {
             self.pool.insert(h, v);
         }
+        KEPT.with(|kpt| {
+            for (id, b) in kpt.borrow_mut().drain(..) {
+                if let Ok(e) = b.downcast::<E>() {
+                    self.bag.push((id, *e));
+                }
+            }
+        });
         match r {
             Ok(o) => {
                 let mut outs = String::from("[");
@@ -785,6 +802,80 @@ fn exec<E: Elem>(op: &str, vals: &mut Vec<Val<E>>, forms: &[String], arg: i64, m
                     _ => with_arr!(&mut vals[0], a => a.fold(0i64, |acc, x| ctx.fold::<E, &mut E>(acc, x)), bad()),
                 }
             };
+            o
+        }
+        // ---- the `internals` builders / consumer driven directly and abandoned at position `arg` -----
+        "builder_abandon" | "intrusive_abandon" => {
+            with_len!(n, N => {
+                use generic_array::internals::{ArrayBuilder, IntrusiveArrayBuilder};
+                let p = uarg.min(n);
+                let fill = |k: usize| -> E { ctx.gen::<E>(k) };
+                if op == "builder_abandon" {
+                    unsafe {
+                        let mut b = ArrayBuilder::<E, N>::new();
+                        {
+                            let (it, pos) = b.iter_position();
+                            for (k, dst) in it.enumerate() {
+                                if k == p { break; }
+                                dst.write(fill(k));
+                                *pos += 1;
+                            }
+                        }
+                        if p == n { return Outcome::outs([b.assume_init().wrap()]); }
+                        ev!("\"ev\":\"abandon\"");
+                        drop(b);
+                    }
+                } else {
+                    unsafe {
+                        let mut arr = GenericArray::<E, N>::uninit();
+                        let mut b = IntrusiveArrayBuilder::new(&mut arr);
+                        {
+                            let (it, pos) = b.iter_position();
+                            for (k, dst) in it.enumerate() {
+                                if k == p { break; }
+                                dst.write(fill(k));
+                                *pos += 1;
+                            }
+                        }
+                        if p == n { b.finish(); return Outcome::outs([IntrusiveArrayBuilder::array_assume_init(arr).wrap()]); }
+                        ev!("\"ev\":\"abandon\"");
+                        drop(b);
+                    }
+                }
+                injected_panic()
+            }, bad())
+        }
+        "consumer_abandon" => {
+            // takes `arg` elements out of an ArrayConsumer (they stay with the caller), then drops it
+            let mut o = Outcome::new();
+            let p = uarg;
+            with_arr!(take(vals, 0), a => {
+                use generic_array::internals::ArrayConsumer;
+                let mut c = ArrayConsumer::new(a);
+                let mut acc = 0i64;
+                unsafe {
+                    let (it, pos) = c.iter_position();
+                    for (k, src) in it.enumerate() {
+                        if k == p { break; }
+                        let v = std::ptr::read(src);
+                        *pos += 1;
+                        ev!("\"ev\":\"cb\",\"k\":{},\"idx\":-1,\"args\":[{}],\"acc\":{},\"pv\":-1", k, v.id(), acc);
+                        acc += 1;
+                        ev!("\"ev\":\"cb_ret\",\"k\":{},\"ret\":[],\"acc\":{},\"panic\":false", k, acc);
+                        { let _b = crate::events::Bypass::new(); o.vals.push(v); }
+                    }
+                }
+                o.res = acc;
+                // the taken elements are the caller's (the contract moved them to `loose` at each callback):
+                // hand them to the interpreter's bag through a side channel
+                KEPT.with(|kpt| { let _b = crate::events::Bypass::new(); kpt.borrow_mut().extend(o.vals.drain(..).map(|e| (e.id(), Box::new(e) as Box<dyn std::any::Any>))); });
+                if p < n {
+                    ev!("\"ev\":\"abandon\"");
+                    drop(c);
+                    injected_panic();
+                }
+                drop(c);
+            }, bad());
             o
         }
         "zipx" => {
